@@ -12,6 +12,7 @@ import Dtaiverif.Model.SubseqIter
 import Dtaiverif.Model.SubseqSearch
 import Dtaiverif.Model.Hier
 import Dtaiverif.Model.KMeans
+import Dtaiverif.Model.NW
 
 open Lean
 
@@ -287,12 +288,44 @@ def opNearest (j : Json) : Except String Json := do
     ("assign", Json.arr (a.map fun x => match x with | some i => Json.num (i : Nat) | none => Json.num (-1 : Int)).toArray),
     ("clusters", Json.arr ((clustersOf k a).map fun c => Json.arr (c.map fun (i : Nat) => Json.num (i : Nat)).toArray).toArray)]
 
+def getIntD (j : Json) (k : String) (d : Int) : Int :=
+  match (j.getObjVal? k) >>= (·.getInt?) with
+  | .ok v => v
+  | .error _ => d
+
+/-- op "nw": Needleman–Wunsch score matrix (MIN orientation, integer scores), direction flags and the
+traceback for a preference order (0 = diagonal, 1 = up, 2 = left). `sub` is a flat `k*k` table over
+symbols `0 … k-1`. -/
+def opNW (j : Json) : Except String Json := do
+  let s1 ← getNatArr j "s1"
+  let s2 ← getNatArr j "s2"
+  let k ← getNat j "k"
+  let tab ← getIntArr j "sub"
+  let gap := getIntD j "gap" 1
+  let ordA ← getNatArr j "order"
+  let order : List Dir := ordA.toList.filterMap fun o => match o with | 0 => some Dir.diag | 1 => some Dir.up | 2 => some Dir.left | _ => none
+  let sub : Nat → Nat → Int := fun a b => tab.getD (a * k + b) 0
+  let m := nwMatrix sub gap s1.toList s2.toList
+  let val : Nat → Nat → Int := fun i j => ((m[i]?.bind fun row => row[j]?).getD 0)
+  let tb := nwTraceback sub gap val order s1.toList.reverse s2.toList.reverse
+  let colJ : Col Nat → Json := fun c => match c with
+    | .both x y => Json.arr #[Json.num (x : Nat), Json.num (y : Nat)]
+    | .gap2 x => Json.arr #[Json.num (x : Nat), Json.null]
+    | .gap1 y => Json.arr #[Json.null, Json.num (y : Nat)]
+  return Json.mkObj [
+    ("value", Json.num (val s1.size s2.size)),
+    ("matrix", Json.arr (m.map fun row => Json.arr (row.map fun (v : Int) => Json.num v).toArray).toArray),
+    ("alignment", match tb with
+      | some cols => Json.arr (cols.reverse.map colJ).toArray
+      | none => Json.null)]
+
 def dispatch (j : Json) : Except String Json := do
   let op ← (j.getObjVal? "op") >>= (·.getStr?)
   let res ← match op with
     | "dtw" => opDtw j
     | "knn" => opKnn j
     | "hier" => opHier j
+    | "nw" => opNW j
     | "nearest" => opNearest j
     | "subseq" => opSubseq j
     | "dba" => opDba j
